@@ -3,11 +3,12 @@ Registry of driver commands.  Each property contributes `FeVerif/Driver/<X>.lean
 `dispatch<X> : String → List String → Option String` (command word, space-separated arguments).
 -/
 import FeVerif.Driver.Frame
+import FeVerif.Driver.Indexer
 
 namespace FeVerif
 
 def dispatchers : List (String → List String → Option String) :=
-  [dispatchFrame]
+  [dispatchFrame, dispatchIndexer]
 
 def dispatch (line : String) : String :=
   match line.splitOn " " with
